@@ -1136,3 +1136,298 @@ func c06round2(c *Ctx, r *Report) {
 	}
 	r.floor("calls of restart", n, 2)
 }
+
+// C12 additions.
+func c12round2(c *Ctx, r *Report) {
+	l := c.L
+	r.rule("C12-R4", "E (regexp/syntax shape of a constant pattern)", "P1",
+		"the pattern that admits an environment variable NAME into the re-launch script is anchored at both ends and admits identifier characters only",
+		"a variable whose name merely starts like an identifier (`A;touch F;B`) is written into the script and executed")
+	rpx := l.Fn("fzf", "runProxy")
+	if rpx == nil {
+		r.unest("anchors", token.NoPos, nil, "anchor runProxy", "cannot resolve")
+	} else {
+		n := 0
+		eachInstr(rpx, func(in ssa.Instruction) {
+			cc, ok := isCall(in, "(*regexp.Regexp).MatchString")
+			if !ok {
+				return
+			}
+			// the receiver: a MustCompile(const) call or a package-level regexp
+			pat, found := "", false
+			for v := range backwardSlice(cc.Args[0], nil, nil) {
+				switch x := v.(type) {
+				case *ssa.Call:
+					nm := calleeName(x.Common())
+					if nm == "regexp.MustCompile" || nm == "regexp.Compile" {
+						if s, ok := constString(x.Call.Args[0]); ok {
+							pat, found = s, true
+						}
+					}
+				case *ssa.Global:
+					if s, ok := globalPattern(l, x); ok {
+						pat, found = s, true
+					}
+				}
+			}
+			n++
+			if !found {
+				r.unest("fzf.runProxy:name pattern", in.Pos(), rpx, "constant pattern of the environment-name filter", "not a constant")
+				return
+			}
+			re, err := syntax.Parse(pat, syntax.Perl)
+			if err != nil {
+				r.unest("fzf.runProxy:name pattern", in.Pos(), rpx, "pattern parses", err.Error())
+				return
+			}
+			re = re.Simplify()
+			anchored := false
+			if re.Op == syntax.OpConcat && len(re.Sub) >= 2 {
+				first, last := re.Sub[0], re.Sub[len(re.Sub)-1]
+				anchored = (first.Op == syntax.OpBeginText || first.Op == syntax.OpBeginLine && false) && (last.Op == syntax.OpEndText)
+			}
+			clean := true
+			for _, ch := range " \t\n;$`'\"\\|&()<>*?[]{}!#~=%.-+,:/" {
+				if regexAdmits(re, ch) {
+					clean = false
+				}
+			}
+			r.check(anchored && clean, "fzf.runProxy:name pattern", in.Pos(), rpx, fmt.Sprintf("environment names are filtered by the full-match identifier pattern %q", pat), fmt.Sprintf("pattern %q is not anchored at both ends or admits shell metacharacters", pat))
+		})
+		r.floor("environment-name filters in runProxy", n, 1)
+	}
+
+	r.rule("C12-R5", "B (writer census over the call graph)", "P1",
+		"no function reachable from replacePlaceholder stores to a package-level variable: the expansion runs concurrently in the previewer goroutine and in the event loop and must be re-entrant",
+		"words of two concurrent expansions mix: an item meant for the preview lands in an execute command line (or vice versa)")
+	rp := l.Fn("fzf", "replacePlaceholder")
+	if rp == nil {
+		r.unest("anchors rp", token.NoPos, nil, "anchor replacePlaceholder", "cannot resolve")
+		return
+	}
+	reach := map[*ssa.Function]bool{}
+	var visit func(f *ssa.Function)
+	visit = func(f *ssa.Function) {
+		if f == nil || reach[f] || f.Blocks == nil || f.Pkg == nil || !isModulePkg(f.Pkg.Pkg) {
+			return
+		}
+		reach[f] = true
+		for _, a := range f.AnonFuncs {
+			visit(a)
+		}
+		eachInstr(f, func(in ssa.Instruction) {
+			if ci, ok := in.(ssa.CallInstruction); ok {
+				if fs, ok := calleesOf(ci.Common()); ok {
+					for _, g := range fs {
+						visit(g)
+					}
+				}
+			}
+		})
+	}
+	visit(rp)
+	nf, bad := 0, 0
+	for f := range reach {
+		nf++
+		r.analysed(f)
+		eachInstr(f, func(in ssa.Instruction) {
+			st, ok := in.(*ssa.Store)
+			if !ok {
+				return
+			}
+			root := st.Addr
+			for i := 0; i < 6; i++ {
+				switch x := root.(type) {
+				case *ssa.FieldAddr:
+					root = x.X
+					continue
+				case *ssa.IndexAddr:
+					root = x.X
+					if u, ok := root.(*ssa.UnOp); ok && u.Op == token.MUL {
+						root = u.X
+					}
+					continue
+				}
+				break
+			}
+			if g, ok := root.(*ssa.Global); ok && g.Pkg != nil && isModulePkg(g.Pkg.Pkg) {
+				bad++
+				r.bad(relName(f)+":store to package-level "+g.Name(), st.Pos(), f, "write to package-level variable "+g.Name()+" during placeholder expansion", "not re-entrant: the previewer and the event loop expand templates concurrently")
+			}
+		})
+	}
+	if bad == 0 {
+		r.ok("fzf.replacePlaceholder:re-entrant", rp.Pos(), rp, fmt.Sprintf("%d functions reachable from replacePlaceholder write no package-level state", nf))
+	}
+	r.floor("functions reachable from replacePlaceholder", nf, 8)
+}
+
+// C17-R10: an option value is assigned or rejected, never silently ignored.
+func c17r10(c *Ctx, r *Report) {
+	l := c.L
+	r.rule("C17-R10", "A (path conditions + must-pass-through)", "P1",
+		"in parseOptions, a store of a parsed option value into a field of opts is not skipped silently: if the store sits under a condition on the parsed value itself, the other edge of that condition leads to an error return (validation), not back to the option loop",
+		"`--opt ''` (or another value of a particular shape) keeps the value from an earlier layer instead of overriding it: last-one-wins broken without any message")
+	pos := l.Fn("fzf", "parseOptions")
+	if pos == nil {
+		r.unest("anchors", token.NoPos, nil, "anchor parseOptions", "cannot resolve")
+		return
+	}
+	var optsParam *ssa.Parameter
+	for _, p := range pos.Params {
+		if strings.HasSuffix(p.Type().String(), ".Options") {
+			optsParam = p
+		}
+	}
+	pc := pathConds(pos)
+	isLoopCond := func(i ssa.Instruction) bool {
+		b, ok := i.(*ssa.BinOp)
+		if !ok || b.Op != token.LSS {
+			return false
+		}
+		call, ok := b.Y.(*ssa.Call)
+		return ok && calleeName(call.Common()) == "builtin.len"
+	}
+	n, judged := 0, 0
+	eachInstr(pos, func(in ssa.Instruction) {
+		st, ok := in.(*ssa.Store)
+		if !ok {
+			return
+		}
+		fa, ok := st.Addr.(*ssa.FieldAddr)
+		if !ok {
+			return
+		}
+		// opts.<field>
+		root := fa.X
+		if u, ok := root.(*ssa.UnOp); ok && u.Op == token.MUL {
+			isOpts := false
+			for _, s0 := range storesToCell(cellRoot(u.X)) {
+				if s0.Val == ssa.Value(optsParam) {
+					isOpts = true
+				}
+			}
+			if !isOpts {
+				return
+			}
+		} else if root != ssa.Value(optsParam) {
+			return
+		}
+		// the value derives from a call result in this function (parsed argument)
+		vs := backwardSlice(st.Val, func(*ssa.CallCommon) bool { return true }, nil)
+		var calls []ssa.Value
+		for v := range vs {
+			call, ok := v.(*ssa.Call)
+			if !ok {
+				continue
+			}
+			// the calls that fetch the option's argument: closures of parseOptions (nextString, nextInt, ...)
+			fs, _ := calleesOf(call.Common())
+			for _, g := range fs {
+				if g.Parent() != nil && rootFn(g) == pos {
+					calls = append(calls, v)
+				}
+			}
+		}
+		if len(calls) == 0 {
+			return
+		}
+		n++
+		ds := pc.At(st.Block())
+		if len(ds) == 0 {
+			return
+		}
+		// common literals
+		for _, lt := range ds[0] {
+			common := true
+			for _, d := range ds[1:] {
+				has := false
+				for _, l2 := range d {
+					if l2.Atom == lt.Atom && l2.Val == lt.Val {
+						has = true
+					}
+				}
+				if !has {
+					common = false
+				}
+			}
+			if !common {
+				continue
+			}
+			// value-dependent? the atom shares a call result with the stored value (other than error tests / string compares of arg)
+			dep := false
+			if b, ok := lt.Atom.(*ssa.BinOp); ok {
+				if cn, isc := b.Y.(*ssa.Const); isc && cn.IsNil() && isErrorType(b.X.Type()) {
+					continue // err != nil handling
+				}
+			}
+			for v := range backwardSlice(lt.Atom, func(*ssa.CallCommon) bool { return true }, nil) {
+				for _, cv := range calls {
+					if v == cv {
+						dep = true
+					}
+				}
+			}
+			if !dep {
+				continue
+			}
+			// find the If on this atom that dominates the store, and its other edge
+			var ifi *ssa.If
+			var other *ssa.BasicBlock
+			for dblk := st.Block(); dblk != nil; dblk = dblk.Idom() {
+				if x, ok := dblk.Instrs[len(dblk.Instrs)-1].(*ssa.If); ok {
+					a, neg := normCond(x.Cond)
+					if a == lt.Atom {
+						ifi = x
+						taken := dblk.Succs[0]
+						if lt.Val == neg {
+							taken = dblk.Succs[1]
+						}
+						other = dblk.Succs[0]
+						if other == taken {
+							other = dblk.Succs[1]
+						}
+					}
+				}
+			}
+			if ifi == nil || other == nil || len(other.Instrs) == 0 {
+				continue
+			}
+			judged++
+			// from the other edge: can we get back to the option loop (or a nil-error return) without an error return and without the store?
+			start := other.Instrs[0]
+			isErrRet := func(i ssa.Instruction) bool {
+				ret, ok := i.(*ssa.Return)
+				if !ok {
+					return false
+				}
+				cn, isc := retResult(ret, 0).(*ssa.Const)
+				return !(isc && cn.IsNil())
+			}
+			isStoreSame := func(i ssa.Instruction) bool {
+				s2, ok := i.(*ssa.Store)
+				if !ok {
+					return false
+				}
+				f2, ok := s2.Addr.(*ssa.FieldAddr)
+				return ok && f2.Field == fa.Field && deref(f2.X.Type()) == deref(fa.X.Type())
+			}
+			silent := isLoopCond(start) || (!isErrRet(start) && !isStoreSame(start) && pathAvoiding(start, func(i ssa.Instruction) bool {
+				if isLoopCond(i) {
+					return true
+				}
+				ret, ok := i.(*ssa.Return)
+				if !ok {
+					return false
+				}
+				cn, isc := retResult(ret, 0).(*ssa.Const)
+				return isc && cn.IsNil()
+			}, func(i ssa.Instruction) bool { return isErrRet(i) || isStoreSame(i) }, nil) != nil)
+			fld, _ := fieldOf(fa)
+			r.check(!silent, fmt.Sprintf("fzf.parseOptions:Options.%s assigned or rejected (%s)", fld.Name(), l.pos(st.Pos())), st.Pos(), pos,
+				"a condition on the parsed value either rejects it with an error or another branch assigns the field", "for some values the option is silently ignored and the previous value stays")
+		}
+	})
+	r.floor("stores of parsed option values into opts", n, 50)
+	r.note("C17-R10: %d stores of parsed values, %d sit under a condition on the parsed value and were judged", n, judged)
+}
